@@ -98,9 +98,33 @@ def handleAlpha (rest : String) : String :=
     | _, _ => "ERR bad-args"
   | _ => "ERR args"
 
+/-- `fixes_check <hexsrc> <start>:<end>:<hexnew> …` (C22): the exact model of `apply_fixes` on the
+real fix list (bytes): `OK (fixes <disjoint-and-in-bounds 0|1> <hex result | PANIC>)`. -/
+def handleFixes (rest : String) : String :=
+  match rest.splitOn " " with
+  | srcHex :: fixParts =>
+    match Hex.decodeBytes srcHex with
+    | none => "ERR bad-hex"
+    | some src =>
+      let fixes : List (Option (Fix UInt8)) := (fixParts.filter (· != "")).map fun f =>
+        match f.splitOn ":" with
+        | [a, b, c] => do
+          let nw ← Hex.decodeBytes c
+          some { start := ← a.toNat?, stop := ← b.toNat?, new := nw }
+        | _ => none
+      if fixes.any Option.isNone then "ERR bad-fix" else
+      let fixes := fixes.filterMap id
+      let asc := fixes.mergeSort (fun a b => decide (a.start ≤ b.start))
+      let disj := fixesDisjointSorted src.length 0 asc
+      match applyFixes src fixes with
+      | none => s!"OK (fixes {b01 disj} PANIC)"
+      | some r => s!"OK (fixes {b01 disj} {Hex.encodeBytes r})"
+  | _ => "ERR args"
+
 def handle (op : String) (rest : String) : Option String :=
   if op == "refsem_run" then some (handleRefsem rest)
   else if op == "alpha_check" then some (handleAlpha rest)
+  else if op == "fixes_check" then some (handleFixes rest)
   else none
 
 end DriverValidators
